@@ -62,8 +62,8 @@ class Program:
     def go_case(self, variant, par, budget):
         return '\t'.join([variant, str(par), str(budget), str(self.memsize), pairs(self.regs), pairs(self.mem), self.asm()])
 
-    def spec_case(self, fuel):
-        return '\t'.join([str(self.memsize), pairs(self.regs), pairs(self.mem), pairs(self.label_addrs()), str(fuel), self.spec()])
+    def spec_case(self, fuel, acc=True):
+        return '\t'.join([str(self.memsize), pairs(self.regs), pairs(self.mem), pairs(self.label_addrs()), str(fuel), self.spec(), 'acc' if acc else '-'])
 
 
 def rand_val(rng):
